@@ -67,6 +67,7 @@ def P(name, **kw):
     return Proof(name, **kw)
 
 
+NEED_OPTIONS = True
 PROOFS = [
     P('is_ascii', enforce='is_ascii/is_ascii_contract', loops=L_is_ascii, canaries=2,
       functions=['unicode.cpp:is_ascii'], expect=['is_ascii_contract.postcondition'],
@@ -160,10 +161,11 @@ EXPLANATION = ('Kernel of C09: the UTF-8/UTF-16 codec and the encoding-detection
 K = ['K1 encode_utf8 appends exactly utf8(c)', 'K2 decode_utf8(utf8(c)) == [c] (with and without BOM); malformed UTF-8 refused',
      'K3 write_utf16/decode_utf16 round trip per scalar value; lone surrogates / odd length / truncated pair refused',
      'K4 decode_unicode detection policy (BOM <=> has_bom, enc per BOM, ASCII only for 7-bit non-NUL, BYTE/ASCII are byte-wise pass-through, never refuses BOM-less input)',
-     'K5 write_byte/write_utf8/write_utf16/write_bom/write_char/write_string: bytes reaching the sink are exactly the encoding of the code point']
+     'K5 write_byte/write_utf8/write_utf16/write_bom/write_char/write_string: bytes reaching the sink are exactly the encoding of the code point',
+     'K6 uncrustify_file: cpd.enc / cpd.bom policy (utf8_force, utf8_byte, utf8_bom; UTF-16 always with BOM)']
 G = ['all formatting passes operate on code points only and route every output character through write_char (not proved here)',
      'decode(concat) == concat(decode): the multi-code-point sequence lemma is proved only per single code point plus safety/termination for any length',
-     'the head of uncrustify_file() (cpd.enc/cpd.bom policy, utf8_bom/utf8_force/utf8_byte) is covered by proof uf_head if present, else assumed']
+     'no pass stub of uncrustify_file has cpd.enc / cpd.bom in its frame (static fact: only uncrustify.cpp assigns them)']
 
 
 def static_facts(repo):
@@ -175,3 +177,13 @@ def static_facts(repo):
     fputc_sites = [l for l in out.splitlines() if 'fputc' in l and 'universalindentgui' not in l and '/uncrustify.cpp:' not in l]
     ok = not bad and len(fputc_sites) == 1 and '/unicode.cpp:' in fputc_sites[0]
     return [('fputc(…, cpd.fout) in unicode.cpp write_byte() is the only byte writer of the formatter', ok, '; '.join(fputc_sites + bad)[:400])]
+
+
+def proofs(tier, workroot):
+    """static list + the driver proof (uncrustify_file: shared with C04; its pass stubs are generated per run)"""
+    import importlib.util
+    here = os.path.dirname(os.path.abspath(__file__))
+    sp = importlib.util.spec_from_file_location('c04proofs', os.path.join(here, '..', 'C04', 'proofs.py'))
+    c04 = importlib.util.module_from_spec(sp)
+    sp.loader.exec_module(c04)
+    return list(PROOFS) + c04.proofs(tier, workroot)
